@@ -319,8 +319,12 @@ type FS struct {
 	Hold func(c *Call) bool
 	// FaultFn decides whether a call is faulted.
 	FaultFn func(c *Call) *Fault
-	// Post may rewrite results after the body ran (scripted mode).
+	// Post observes a finished call.
 	Post func(c *Call)
+	// Script may rewrite the result fields of a successful call right before
+	// they are returned (scripted mode, C03/C01): the values the backend
+	// "returned" are then whatever the generator chose.
+	Script func(c *Call)
 	// OnEnter / OnExit observers.
 	OnEnter func(c *Call)
 	OnExit  func(c *Call)
@@ -643,6 +647,12 @@ func (fs *FS) fault(c *Call) bool {
 	return false
 }
 
+func (fs *FS) script(c *Call) {
+	if fs.Script != nil {
+		fs.Script(c)
+	}
+}
+
 // ActiveCalls returns the calls currently between enter and exit.
 func (fs *FS) ActiveCalls() []*Call { return simrt.Clone(fs.active) }
 
@@ -748,6 +758,7 @@ func (h *Handle) Walk(names []string) ([]p9.QID, p9.File, error) {
 		return nil, nil, err
 	}
 	c.RFile = nh
+	fs.script(c)
 	return c.RQIDs, nh, nil
 }
 
@@ -771,6 +782,7 @@ func (h *Handle) WalkGetAttr(names []string) ([]p9.QID, p9.File, p9.AttrMask, p9
 	c.RFile = nh
 	c.RValid = p9.AttrMaskAll
 	c.RAttr = fs.attr(nh.node())
+	fs.script(c)
 	return c.RQIDs, nh, c.RValid, c.RAttr, nil
 }
 
@@ -783,6 +795,7 @@ func (h *Handle) StatFS() (p9.FSStat, error) {
 		return p9.FSStat{}, c.Err
 	}
 	c.RStat = p9.FSStat{Type: 0x01021997, BlockSize: 4096, Blocks: 1 << 20, BlocksFree: 1 << 19, BlocksAvailable: 1 << 18, Files: fs.nextIno, FilesFree: 1 << 30, FSID: 0xfeedface, NameLength: 255}
+	fs.script(c)
 	return c.RStat, nil
 }
 
@@ -801,6 +814,7 @@ func (h *Handle) GetAttr(req p9.AttrMask) (p9.QID, p9.AttrMask, p9.Attr, error) 
 		return p9.QID{}, p9.AttrMask{}, p9.Attr{}, c.Err
 	}
 	c.RQID, c.RValid, c.RAttr = fs.qid(n), p9.AttrMaskAll, fs.attr(n)
+	fs.script(c)
 	return c.RQID, c.RValid, c.RAttr, nil
 }
 
@@ -901,6 +915,7 @@ func (h *Handle) Open(mode p9.OpenFlags) (p9.QID, uint32, error) {
 		n.Data = nil
 	}
 	c.RQID, c.RIoUnit = fs.qid(n), fs.IoUnit
+	fs.script(c)
 	return c.RQID, c.RIoUnit, nil
 }
 
@@ -997,6 +1012,7 @@ func (h *Handle) Lock(pid int, locktype p9.LockType, flags p9.LockFlags, start, 
 		return p9.LockStatusError, c.Err
 	}
 	c.RLock = p9.LockStatusOK
+	fs.script(c)
 	return c.RLock, nil
 }
 
@@ -1037,6 +1053,7 @@ func (h *Handle) Create(name string, flags p9.OpenFlags, permissions p9.FileMode
 	nh.pinned = n
 	nh.Opens = 1
 	c.RFile, c.RQID, c.RIoUnit = nh, fs.qid(n), fs.IoUnit
+	fs.script(c)
 	return nh, c.RQID, c.RIoUnit, nil
 }
 
@@ -1071,6 +1088,7 @@ func (h *Handle) Mkdir(name string, permissions p9.FileMode, uid p9.UID, gid p9.
 		return p9.QID{}, err
 	}
 	c.RQID = fs.qid(n)
+	fs.script(c)
 	return c.RQID, nil
 }
 
@@ -1090,6 +1108,7 @@ func (h *Handle) Symlink(oldName string, newName string, uid p9.UID, gid p9.GID)
 	}
 	n.Target = oldName
 	c.RQID = fs.qid(n)
+	fs.script(c)
 	return c.RQID, nil
 }
 
@@ -1151,6 +1170,7 @@ func (h *Handle) Mknod(name string, mode p9.FileMode, major uint32, minor uint32
 	}
 	n.Major, n.Minor = major, minor
 	c.RQID = fs.qid(n)
+	fs.script(c)
 	return c.RQID, nil
 }
 
@@ -1329,7 +1349,8 @@ func (h *Handle) Readdir(offset uint64, count uint32) (p9.Dirents, error) {
 		out = append(out, p9.Dirent{QID: fs.qid(k), Offset: uint64(i + 1), Type: k.Kind.Mode().QIDType(), Name: n.names[i]})
 	}
 	c.RDir = out
-	return out, nil
+	fs.script(c)
+	return c.RDir, nil
 }
 
 func (h *Handle) Readlink() (string, error) {
@@ -1350,6 +1371,7 @@ func (h *Handle) Readlink() (string, error) {
 		return "", c.Err
 	}
 	c.RStr = n.Target
+	fs.script(c)
 	return c.RStr, nil
 }
 
@@ -1420,7 +1442,8 @@ func (h *Handle) GetXattr(attr string) ([]byte, error) {
 		return nil, c.Err
 	}
 	c.RData = append([]byte{}, v...)
-	return append([]byte{}, v...), nil
+	fs.script(c)
+	return append([]byte{}, c.RData...), nil
 }
 
 func (h *Handle) ListXattrs() ([]string, error) {
@@ -1437,7 +1460,8 @@ func (h *Handle) ListXattrs() ([]string, error) {
 		return nil, c.Err
 	}
 	c.RStrs = append([]string{}, n.xnames...)
-	return append([]string{}, n.xnames...), nil
+	fs.script(c)
+	return append([]string{}, c.RStrs...), nil
 }
 
 func (h *Handle) RemoveXattr(attr string) error {
